@@ -13,6 +13,8 @@ from .interp import *
 class BuiltinMixin:
     def call_builtin(self, st: State, b: Builtin, args, kwargs, node=None):
         name = b.name
+        if name == "ext:copy.copy":
+            return self.shallow_copy(st, args[0])
         if name.startswith("ext:"):
             c = self.contracts.get(name)
             if c is not None:
@@ -27,6 +29,27 @@ class BuiltinMixin:
         if m is None:
             raise OutsideSubset(f"builtin {name}")
         return m(st, args, kwargs)
+
+    def shallow_copy(self, st, v):
+        """copy.copy: a new object with the same attribute values"""
+        v = self.force(st, v) if not st.spec else v
+        if isinstance(v, Z) and v.t.kind == "ref" and v.t.cls and v.t.cls in self.classes:
+            cls = v.t.cls
+            o = HeapObj("obj", cls, {})
+            info = self.find_class_info(cls)
+            if info is not None:
+                o.info = info
+            c = cls
+            while c:
+                m = self.classes.get(c) or {}
+                for f in m.get("fields", {}):
+                    if f not in o.fields:
+                        o.fields[f] = self.read_field(st, v.e, f, self.field_T(cls, f))
+                c = m.get("base")
+            return st.alloc(o)
+        if isinstance(v, HeapRef):
+            return st.alloc(st.obj(v).clone())
+        raise OutsideSubset(f"copy of {v!r}")
 
     def bi_noop(self, st, a, k):
         return NONE
